@@ -229,6 +229,48 @@ def inline_temps(src):
     return ast.unparse(tree) + "\n", n[0]
 
 
+def inline_all(tree):
+    """a local assigned once in its function and read once, in the immediately following simple statement of the same block
+    (not inside a lambda / comprehension), is replaced by its defining expression."""
+    for fn in [n for n in ast.walk(tree) if isinstance(n, (ast.FunctionDef, ast.AsyncFunctionDef))]:
+        if any(isinstance(x, ast.Call) and isinstance(x.func, ast.Name) and x.func.id in ("locals", "vars") for x in ast.walk(fn)):
+            continue
+        changed = True
+        while changed:
+            changed = False
+            cnt = {}
+            for x in ast.walk(fn):
+                if isinstance(x, ast.Name):
+                    cnt.setdefault(x.id, [0, 0])[0 if isinstance(x.ctx, ast.Load) else 1] += 1
+            for blk_owner in ast.walk(fn):
+                for fld in ("body", "orelse", "finalbody"):
+                    b = getattr(blk_owner, fld, None)
+                    if not (isinstance(b, list) and b and isinstance(b[0], ast.stmt)):
+                        continue
+                    i = 0
+                    while i + 1 < len(b):
+                        st, nx = b[i], b[i + 1]
+                        if (isinstance(st, ast.Assign) and len(st.targets) == 1 and isinstance(st.targets[0], ast.Name) and cnt.get(st.targets[0].id) == [1, 1]
+                                and isinstance(nx, (ast.Assign, ast.AugAssign, ast.Return, ast.Expr, ast.Assert))):
+                            name = st.targets[0].id
+                            uses = [x for x in ast.walk(nx) if isinstance(x, ast.Name) and x.id == name and isinstance(x.ctx, ast.Load)]
+                            scoped = any(isinstance(p, (ast.Lambda, ast.ListComp, ast.SetComp, ast.DictComp, ast.GeneratorExp)) and any(u is y for y in ast.walk(p) for u in uses) for p in ast.walk(nx))
+                            if len(uses) == 1 and not scoped:
+                                val = st.value
+
+                                class R(ast.NodeTransformer):
+                                    def visit_Name(s_, node):
+                                        return val if node is uses[0] else node
+                                b[i + 1] = R().visit(nx)
+                                del b[i]
+                                changed = True
+                                continue
+                        i += 1
+    return tree
+
+
+
+
 def transform(kind, src):
     if kind == "unparse":
         return ast.unparse(ast.parse(src)) + "\n", 1
@@ -246,6 +288,10 @@ def transform(kind, src):
         return extract_temps(src)
     if kind == "inline":
         return inline_temps(src)
+    if kind == "inlineall":
+        t = inline_all(ast.parse(src))
+        ast.fix_missing_locations(t)
+        return ast.unparse(t) + "\n", 1
     raise ValueError(kind)
 
 
@@ -276,7 +322,7 @@ def run(args):
 
 
 def main():
-    kinds = ["unparse", "rename", "noop", "flipcmp", "extract", "inline"]
+    kinds = ["unparse", "rename", "noop", "flipcmp", "extract", "inline", "inlineall"]
     mods = []
     props = [p for p in PROPS if has_checker(p)]
     argv = sys.argv[1:]
